@@ -32,13 +32,30 @@ TRUSTED = [
     "footprint correspondence on provenance scalars (coq/Model/LayersRun.v)",
     "modelled primitives: nn.Linear / LayerNorm / GroupNorm / nn.TransformerEncoder as blocks acting on the last "
     "axis / per sample (explicit hypotheses); reshape, transpose, einsum, softmax, cat, repeat",
-    "harness/c15.py + harness/nnprobe.py",
+    "per-run validation (harness/c15.py extra): nn.Linear / LayerNorm act on the last axis, GroupNorm per sample, "
+    "nn.TransformerEncoder(eval) per row and token-permutation equivariant (direct perturbation of the blocks); "
+    "H_mask_kills checked in float32/float64 for scores bounded by 2e4; discrimination self-test (TabTransformer "
+    "observation fails against the ExcelFormer model and against a wrong head geometry, and vice versa)",
+    "harness/c15.py + harness/nnprobe.py (attribute names attn / DiaM / norm_1 / lin_q / lin_k / lin_v / lin_out "
+    "of the repository are used, fail-soft, for the channel-level attention-core probe and the score bound)",
 ]
 ASSUMPTIONS = [
     "exact arithmetic, abstract scalars, uninterpreted non-linearities: float addition is not associative, so "
     "column-permutation equivariance holds to round-off only (OBSERVED to 1e-9 in float64)",
-    "H_mask_kills (an additive -1e5 mask gives exactly-zero attention weight) is a hypothesis of the causality "
-    "theorem; validated each run by the exact zero influence of later columns and by a direct float check",
+    "causality of ExcelFormerConv is proved UNDER BOUNDED SCORES: H_mask_kills (a bounded score with the additive "
+    "-1e5 mask has exactly-zero softmax weight) plus the premise that every q.k score is bounded.  The mask is "
+    "additive: in IEEE arithmetic a score gap of ~1e5 defeats it (attention parameters ~N(0, 50^2) make the real "
+    "layer observably non-causal); that regime is outside the theorem and outside the generator (parameter noise "
+    "<= 1.0).  Each run measures max |q.k| of every generated attention layer, records it in the evidence "
+    "(input_distribution.max_abs_attention_score) and fails its sanity check if it exceeds 2e4; the float fact is "
+    "checked directly for scores bounded by 2e4",
+    "ExcelFormerConv(num_cols = 1) accepts inputs with any number of columns (the [1,1] mask broadcasts) and then "
+    "runs unmasked; this configuration is excluded from the model's guard theorem (hypothesis 1 < num_cols) and "
+    "is generated only with a 1-column input",
+    "the Coq side runs with each case's own channels / heads / columns / prompts / out_channels; the head reshape "
+    "and the einsum / mask orientation are compared at CHANNEL granularity on the real module with identity q/k/v "
+    "projections (attention-core probe); for full-attention layers the column footprint itself is 'everything', so "
+    "the softmax axis of TabTransformerConv is validated only through the oracle's equivariance runs",
     "H_torch_encoder_rowwise_equivariant (nn.TransformerEncoder in eval mode is row-wise and permutation-equivariant "
     "over tokens) is a hypothesis of the FT-Transformer theorem; observed through the layer",
     "evaluation mode (dropout inactive); finiteness and determinism observed",
@@ -242,45 +259,142 @@ def _probe(case, layer):
             suffix.append([i, bool(torch.equal(y2[:, :i + 1], out[:, :i + 1])), bool(not torch.equal(y2, out))])
         o["suffix"] = suffix
     # ---- Trompt: shapes that disagree with the configuration must be rejected --------------------------
-    if kind in ("trompt_conv", "trompt_decoder"):
+    if kind in ("trompt_conv", "trompt_decoder", "excel_conv"):
         o["rejections"] = _rejections(case, layer, x, xp)
+    if kind in ("tab_conv", "excel_conv"):
+        o["max_score"] = max_score(case, layer, x)
+        o["core_fp"] = attention_core_probe(case, layer)
     return o
 
 
+SCORE_BOUND = 2e4      # |q.k| below which exp((s - 1e5) / sqrt(d)) underflows to exactly 0.0 with a wide margin
+
+
+def _attn_parts(case, layer):
+    """(attention module, norm_1) of the two attention layers, by the repository's attribute names (fail-soft)."""
+    try:
+        attn = layer.attn if case["kind"] == "tab_conv" else layer.DiaM
+        _ = attn.lin_q, attn.lin_k, attn.lin_v
+        return attn, layer.norm_1
+    except Exception:
+        return None, None
+
+
+def max_score(case, layer, x):
+    """Largest |q.k| attention score of the layer on this input (recorded: the causality theorem holds for
+    bounded scores only)."""
+    attn, _ = _attn_parts(case, layer)
+    if attn is None:
+        return None
+    grabbed = {}
+    hs = [attn.lin_q.register_forward_hook(lambda m, a, o: grabbed.__setitem__("q", o.detach())),
+          attn.lin_k.register_forward_hook(lambda m, a, o: grabbed.__setitem__("k", o.detach()))]
+    try:
+        with torch.no_grad():
+            layer(x)
+    finally:
+        for h in hs:
+            h.remove()
+    if "q" not in grabbed or "k" not in grabbed:
+        return None
+    B, n, ch = grabbed["q"].shape
+    H = case["heads"]
+    q = grabbed["q"].reshape(B, n, H, ch // H)
+    k = grabbed["k"].reshape(B, n, H, ch // H)
+    return float(torch.einsum("bihd,bjhd->bhij", q, k).abs().max())
+
+
+def attention_core_probe(case, layer):
+    """Channel-level footprint of the attention core of the REAL module: identity q/k/v projections installed,
+    norm_1 bypassed, the merged head outputs (input of lin_out) observed while one input scalar (column l,
+    channel c) of a single row is perturbed.  Returns the [(l, c)][(j, c')] matrix or None."""
+    attn, norm = _attn_parts(case, layer)
+    if attn is None:
+        return None
+    cols, ch = case["cols"], case["channels"]
+    if case["kind"] == "tab_conv" and cols < 2:
+        return None        # a softmax over one column is the constant 1: nothing to see
+    saved = {k: v.clone() for k, v in layer.state_dict().items()}
+    grabbed, hooks = {}, []
+    try:
+        with torch.no_grad():
+            for lin in (attn.lin_q, attn.lin_k, attn.lin_v):
+                lin.weight.copy_(torch.eye(ch))
+                lin.bias.zero_()
+        hooks.append(norm.register_forward_hook(lambda m, a, o: a[0]))
+        if getattr(attn, "lin_out", None) is not None:
+            hooks.append(attn.lin_out.register_forward_pre_hook(lambda m, a: grabbed.__setitem__("y", a[0].detach().clone())))
+        else:
+            hooks.append(attn.register_forward_hook(lambda m, a, o: grabbed.__setitem__("y", o.detach().clone())))
+        fp = [[False] * (cols * ch) for _ in range(cols * ch)]
+        for t in range(3):
+            x = 0.7 * torch.randn(1, cols, ch)
+            with torch.no_grad():
+                layer(x)
+            base = grabbed["y"].reshape(-1)
+            for l in range(cols):
+                for c in range(ch):
+                    x2 = x.clone()
+                    x2[0, l, c] += (0.5 + torch.rand(())) * (1.0 if t % 2 == 0 else -1.0)
+                    with torch.no_grad():
+                        layer(x2)
+                    y2 = grabbed["y"].reshape(-1)
+                    for k in torch.nonzero(base != y2).flatten().tolist():
+                        fp[l * ch + c][k] = True
+            d = ch // case["heads"]
+            full = all(fp[l * ch + c][j * ch + c2] for l in range(cols) for c in range(ch) for j in range(cols)
+                       for c2 in range(ch) if c // d == c2 // d and (case["kind"] == "tab_conv" or (l <= j and j > 0)))
+            if full:
+                break
+        return fp
+    except Exception:
+        return None
+    finally:
+        for h in hooks:
+            h.remove()
+        layer.load_state_dict(saved)
+
+
 def _rejections(case, layer, x, xp):
+    """Inputs whose shape disagrees with the configuration: [name, shape of x, shape of x_prompt or None, raised]."""
     B, ch, Pn = case["B"], case["channels"], case["prompts"]
-    bad = []
+    res = []
+
+    def attempt(name, a, b=None):
+        try:
+            with torch.no_grad():
+                r = layer(a, b) if b is not None else layer(a)
+            res.append([name, list(a.shape), None if b is None else list(b.shape), False, list(r.shape)])
+        except Exception:
+            res.append([name, list(a.shape), None if b is None else list(b.shape), True, None])
+
     if case["kind"] == "trompt_conv":
         cols = case["cols"]
-        alts = [("x cols+1", torch.randn(B, cols + 1, ch), xp), ("x channels+1", torch.randn(B, cols, ch + 1), xp),
-                ("x_prompt prompts+1", x, torch.randn(B, Pn + 1, ch)),
-                ("x_prompt channels 1 (broadcastable)", x, torch.randn(B, Pn, 1)),
-                ("x_prompt 1 prompt (broadcastable)", x, torch.randn(B, 1, ch)),
-                ("x_prompt batch+1", x, torch.randn(B + 1, Pn, ch)),
-                ("x 2-d", torch.randn(B, ch), xp)]
+        attempt("x cols+1", torch.randn(B, cols + 1, ch), xp)
+        attempt("x channels+1", torch.randn(B, cols, ch + 1), xp)
+        attempt("x_prompt prompts+1", x, torch.randn(B, Pn + 1, ch))
+        attempt("x_prompt channels 1 (broadcastable)", x, torch.randn(B, Pn, 1))
+        attempt("x_prompt 1 prompt (broadcastable)", x, torch.randn(B, 1, ch))
+        attempt("x_prompt batch+1", x, torch.randn(B + 1, Pn, ch))
+        attempt("x 2-d", torch.randn(B, ch), xp)
         if cols > 1:
-            alts.append(("x 1 column (broadcastable)", torch.randn(B, 1, ch), xp))
+            attempt("x 1 column (broadcastable)", torch.randn(B, 1, ch), xp)
         if B > 1:
-            alts.append(("x_prompt batch 1 (broadcastable)", x, torch.randn(1, Pn, ch)))
-            alts.append(("x batch 1 (broadcastable)", torch.randn(1, cols, ch), xp))
-        for name, a, b in alts:
-            try:
-                with torch.no_grad():
-                    r = layer(a, b)
-                bad.append([name, list(r.shape)])
-            except Exception:
-                pass
-    else:
-        alts = [("prompts+1", torch.randn(B, Pn + 1, ch)), ("prompts-1", torch.randn(B, Pn - 1, ch)),
-                ("channels 1", torch.randn(B, Pn, 1)), ("2-d", torch.randn(B, ch))]
-        for name, a in alts:
-            try:
-                with torch.no_grad():
-                    r = layer(a)
-                bad.append([name, list(r.shape)])
-            except Exception:
-                pass
-    return bad
+            attempt("x_prompt batch 1 (broadcastable)", x, torch.randn(1, Pn, ch))
+            attempt("x batch 1 (broadcastable)", torch.randn(1, cols, ch), xp)
+        attempt("matching shapes", torch.randn(B, cols, ch), torch.randn(B, Pn, ch))
+    elif case["kind"] == "trompt_decoder":
+        attempt("prompts+1", torch.randn(B, Pn + 1, ch))
+        attempt("prompts-1", torch.randn(B, Pn - 1, ch))
+        attempt("channels 1", torch.randn(B, Pn, 1))
+        attempt("2-d", torch.randn(B, ch))
+        attempt("matching shape", torch.randn(B, Pn, ch))
+    elif case["kind"] == "excel_conv" and case["cols"] >= 2:
+        cols = case["cols"]
+        attempt("cols+1", torch.randn(B, cols + 1, ch))
+        attempt("cols-1", torch.randn(B, cols - 1, ch))
+        attempt("matching shape", torch.randn(B, cols, ch))
+    return res
 
 
 # ------------------------------------------------------------------ direct oracle
@@ -351,11 +465,14 @@ def oracle(case, obs):
     for r, chd in obs["rows"]:
         if r not in chd:
             return dict(key=f"row-dead:{k}", what=f"{k}: perturbing row {r} never changed its own output")
-    if obs.get("rejections"):
-        name, shp = obs["rejections"][0]
-        return dict(key=f"accepts-mismatch:{k}", what=f"{k} accepted an input whose shape disagrees with its "
-                    f"configuration ({name}) and returned shape {shp} instead of raising",
-                    expected="raise", observed=obs["rejections"])
+    for name, sa, sb, raised, shp in obs.get("rejections", []):
+        if name.startswith("matching"):
+            if raised:
+                return dict(key=f"raises:{k}:matching", what=f"{k} raised on a correctly shaped input")
+        elif not raised and k in ("trompt_conv", "trompt_decoder"):
+            return dict(key=f"accepts-mismatch:{k}", what=f"{k} accepted an input whose shape disagrees with its "
+                        f"configuration ({name}) and returned shape {shp} instead of raising",
+                        expected="raise", observed=[name, sa, sb, shp])
     return None
 
 
@@ -390,51 +507,194 @@ def stats(cases, obss):
             d["errors"] += 1
             continue
         d["nontrivial_perms"] += int(bool(o.get("perm_nontrivial")))
+        if o.get("max_score") is not None:
+            d["max_abs_attention_score"] = max(d.get("max_abs_attention_score", 0.0), o["max_score"])
+            d["scores_measured"] = d.get("scores_measured", 0) + 1
+        if o.get("core_fp") is not None:
+            d["core_probes"] = d.get("core_probes", 0) + 1
+        if o.get("rejections"):
+            d["rejection_probes"] = d.get("rejection_probes", 0) + len(o["rejections"])
         d["trials_hist"][str(o["trials"])] = d["trials_hist"].get(str(o["trials"]), 0) + 1
     return d
 
 
-def extra(tier, rng):
-    """Direct validation of H_mask_kills in IEEE arithmetic, independent of the repository: for bounded scores the
-    softmax weight of a position carrying the additive -1e5 mask is exactly 0.0 (float32 and float64)."""
-    fails, n = [], 0
+def validate_mask_float(rng):
+    """H_mask_kills in IEEE arithmetic, independent of the repository: for scores bounded by SCORE_BOUND the softmax
+    weight of a position carrying the additive -1e5 mask is exactly 0.0 (float32 and float64); for scores of the
+    order of the mask it is NOT (recorded: this is why the theorem carries a boundedness premise)."""
+    fails, n, defeated = [], 0, 0
     g = torch.Generator().manual_seed(rng.randrange(1 << 30))
     for dtype in (torch.float32, torch.float64):
         for d in (1, 2, 4, 8, 16, 64):
-            for scale in (1.0, 10.0, 100.0, 1000.0):
-                s = (torch.randn(64, 6, generator=g) * scale).to(dtype)
+            for scale in (1.0, 10.0, 100.0, 1000.0, 5000.0):
+                sc = (torch.randn(64, 6, generator=g) * scale).to(dtype).clamp(-SCORE_BOUND, SCORE_BOUND)
                 mask = torch.zeros(6, dtype=dtype)
                 mask[3:] = -1e5
-                w = torch.softmax((s + mask) / math.sqrt(d), dim=-1)
+                w = torch.softmax((sc + mask) / math.sqrt(d), dim=-1)
                 n += 1
-                # the hypothesis is about bounded scores: |s| well below 1e5 / 2
-                if float(s.abs().max()) < 2e4 and not bool((w[:, 3:] == 0).all()):
+                if not bool((w[:, 3:] == 0).all()):
                     fails.append(dict(key="H_mask_kills-float", what=f"softmax weight of a masked position is not exactly "
-                                      f"0.0 (dtype {dtype}, d={d}, score scale {scale})", case=None,
-                                      observed=float(w[:, 3:].max())))
-    return fails, {"H_mask_kills_float_checks": n}
+                                      f"0.0 for scores bounded by {SCORE_BOUND} (dtype {dtype}, d={d}, score scale {scale})",
+                                      case=None, observed=float(w[:, 3:].max())))
+        big = torch.tensor([[0.0, 0.0, 0.0, 2e5, 0.0, 0.0]], dtype=dtype)
+        mask = torch.zeros(6, dtype=dtype)
+        mask[3:] = -1e5
+        defeated += int(bool((torch.softmax((big + mask) / 2.0, dim=-1)[:, 3:] > 0).any()))
+    return fails, {"H_mask_kills_float_checks": n, "score_bound_asserted": SCORE_BOUND,
+                   "mask_defeated_by_unbounded_score_in_float": bool(defeated)}
+
+
+def validate_torch_blocks(rng):
+    """The axis hypotheses on torch's blocks, checked directly: nn.Linear / LayerNorm act on the last axis only
+    (perturbing cell (r, t) changes only output cell (r, t)), GroupNorm acts per sample, nn.TransformerEncoder in
+    evaluation mode acts per row and commutes with token permutations (H_torch_encoder_rowwise_equivariant)."""
+    import torch.nn as nn
+    fails, n = [], 0
+    with P.f64(rng.randrange(1 << 30)):
+        for name, blk in (("Linear", nn.Linear(6, 5)), ("LayerNorm", nn.LayerNorm(6))):
+            P.randomize_params(blk, 0.5)
+            x = torch.randn(3, 4, 6)
+            with torch.no_grad():
+                y = blk(x)
+                for r in range(3):
+                    for t in range(4):
+                        x2 = x.clone()
+                        x2[r, t] += torch.randn(6)
+                        d = (blk(x2) != y).flatten(2).any(dim=2)
+                        n += 1
+                        if d.nonzero().tolist() != [[r, t]]:
+                            fails.append(dict(key="torch-block-axis", case=None, what=f"torch {name}: perturbing cell "
+                                              f"({r},{t}) changed cells {d.nonzero().tolist()} (hypothesis acts_lastaxis)"))
+        gn = nn.GroupNorm(2, 4)
+        P.randomize_params(gn, 0.5)
+        x = torch.randn(3, 4, 2, 5)
+        with torch.no_grad():
+            y = gn(x)
+            for r in range(3):
+                x2 = x.clone()
+                x2[r] += torch.randn(4, 2, 5)
+                n += 1
+                if P.changed_rows(y, gn(x2)) != [r]:
+                    fails.append(dict(key="torch-block-axis", case=None, what="torch GroupNorm does not act per sample"))
+        for heads in (1, 2, 4):
+            te = nn.TransformerEncoder(nn.TransformerEncoderLayer(d_model=8, nhead=heads, dim_feedforward=8, dropout=0.2,
+                                                                  batch_first=True), num_layers=2, norm=nn.LayerNorm(8))
+            te.eval()
+            P.randomize_params(te, 0.3)
+            x = torch.randn(3, 5, 8)
+            perm = torch.tensor([3, 0, 4, 1, 2])
+            with torch.no_grad():
+                y = te(x)
+                n += 2
+                if P.maxdiff(te(x[:, perm]), y[:, perm]) > P.TOL:
+                    fails.append(dict(key="torch-encoder-not-equivariant", case=None, what="nn.TransformerEncoder (eval) is "
+                                      "not token-permutation equivariant (H_torch_encoder_rowwise_equivariant)"))
+                x2 = x.clone()
+                x2[1] += torch.randn(5, 8)
+                if P.changed_rows(y, te(x2)) != [1]:
+                    fails.append(dict(key="torch-encoder-not-rowwise", case=None, what="nn.TransformerEncoder (eval) mixes "
+                                      "rows of the batch"))
+    return fails, n
+
+
+def selftest_discrimination(rng):
+    """The correspondence must discriminate: measured footprints of the TabTransformer layer must fail against the
+    ExcelFormer model and vice versa, and against the right model with a wrong head geometry."""
+    base = {"channels": 8, "heads": 4, "cols": 3, "B": 2, "prompts": 2, "layers": 1, "out": 2, "perm": [2, 0, 1],
+            "idx": [1, 0], "param_scale": 0.3}
+    ct = dict(base, kind="tab_conv", seed=rng.randrange(1 << 30))
+    ce = dict(base, kind="excel_conv", seed=rng.randrange(1 << 30))
+    ot, oe = run(ct), run(ce)
+    if not (ot.get("ok") and oe.get("ok")):
+        return [dict(key="selftest-run-failed", case=None, what="self-test layers failed to run")], {}
+    oe_norej = dict(oe, rejections=[])
+    terms = [(0, coq_term(ct, ot)), (1, coq_term(ce, oe)),
+             (2, "negb (" + coq_term(ct, ot, kind="excel_conv") + ")"),
+             (3, "negb (" + coq_term(ce, oe_norej, kind="tab_conv") + ")"),
+             (4, "negb (" + coq_term(dict(ct, heads=2), ot) + ")"),
+             (5, "negb (" + coq_term(dict(ce, heads=2), oe_norej) + ")")]
+    names = ["tab vs tab", "excel vs excel", "tab observation vs excel model", "excel observation vs tab model",
+             "tab observation (4 heads) vs tab model with 2 heads", "excel observation (4 heads) vs excel model with 2 heads"]
+    ok, bad, log = C.run_coq_cases(PROP + "selftest", HEADER, terms, shard=10)
+    fails = []
+    if not ok:
+        fails.append(dict(key="selftest-coq-failed", case=None, what="discrimination self-test could not be evaluated: " + log[-500:]))
+    for k in bad:
+        fails.append(dict(key="selftest-not-discriminating", case=None,
+                          what=f"discrimination self-test '{names[k]}' gave the wrong verdict"))
+    return fails, {"selftest_terms": len(terms), "selftest_wrong": len(bad)}
+
+
+def extra(tier, rng):
+    f1, info = validate_mask_float(rng)
+    f2, n = validate_torch_blocks(rng)
+    f3, info3 = selftest_discrimination(rng)
+    return f1 + f2 + f3, dict(info, torch_block_axis_checks=n, **info3)
+
+
+def sanity(cases, obss):
+    """Fail-closed distribution check, including the score bound the causality theorem is proved under."""
+    d = stats(cases, obss)
+    probs = []
+    for k in KINDS:
+        if d["kinds"].get(k, 0) == 0:
+            probs.append(f"layer kind {k} never drawn")
+    if d["total"] and d["errors"] > 0.2 * d["total"]:
+        probs.append(f"{d['errors']} of {d['total']} cases failed to run")
+    if not any(int(h) >= 3 for h in d["heads"]):
+        probs.append("no case with 3 or more attention heads")
+    if d.get("B", {}).get("1", 0) == 0 or not any(int(b) >= 3 for b in d["B"]):
+        probs.append("batch sizes degenerate")
+    if d["nontrivial_perms"] == 0:
+        probs.append("no non-trivial column permutation")
+    if d.get("scores_measured", 0) == 0:
+        probs.append("attention scores could never be measured: the bound of H_mask_kills is unchecked")
+    elif d["max_abs_attention_score"] > SCORE_BOUND:
+        probs.append(f"max |attention score| {d['max_abs_attention_score']:.3g} exceeds the bound {SCORE_BOUND} under which "
+                     f"the causality theorem (H_mask_kills) is claimed")
+    if d.get("core_probes", 0) == 0:
+        probs.append("the channel-level attention core was never probed")
+    if d.get("rejection_probes", 0) == 0:
+        probs.append("no shape-mismatch probe")
+    return probs
 
 
 # ------------------------------------------------------------------ Coq side
-def coq_term(case, obs):
+def _shp(sh):
+    return f"({sh[0]}, {sh[1]}, {sh[2]})"
+
+
+def coq_term(case, obs, kind=None):
+    """Footprints of the Coq model of layer `kind` (default: this case's) run with THE CASE'S OWN hyper-parameters
+    (channels, heads, columns, prompts, out) against the measured ones; plus the channel-level attention core and
+    the rejection (None) branches."""
     if not obs.get("ok"):
         return None
-    k, B, cols, Pn = case["kind"], case["B"], case["cols"], case["prompts"]
+    k = kind or case["kind"]
+    B, cols, Pn, ch, h, out = case["B"], case["cols"], case["prompts"], case["channels"], case["heads"], case["out"]
     rows = "[" + "; ".join(f"({r}, {P.cnats(chd)})" for r, chd in obs["rows"]) + "]"
-    h = min(case["heads"], 2)
+    core = "None" if obs.get("core_fp") is None else f"(Some {P.cbmat(obs['core_fp'])})"
+    rej3 = [r for r in obs.get("rejections", []) if len(r[1]) == 3 and (r[2] is None or len(r[2]) == 3)]
     if k == "tab_conv":
-        return f"layer_fp_ok {cols} {cols} (Some (p_tab_conv {h} 2 (pin {B} {cols} 2))) {B} {rows} {P.cbmat(obs['colfp'])}"
+        return (f"(layer_fp_ok {cols} {cols} (Some (p_tab_conv {h} {ch} (pin {B} {cols} {ch}))) {B} {rows} "
+                f"{P.cbmat(obs['colfp'])} && core_ok {cols} {ch} 0 (p_tab_core {h} {ch} {cols}) {core})")
     if k == "excel_conv":
-        return f"layer_fp_ok {cols} {cols} (p_excel_conv {cols} {h} 2 (pin {B} {cols} 2)) {B} {rows} {P.cbmat(obs['colfp'])}"
+        rej = "[" + "; ".join(f"({_shp(sa)}, {C.cbool(raised)})" for _, sa, _, raised, _ in rej3) + "]"
+        return (f"(layer_fp_ok {cols} {cols} (p_excel_conv {cols} {h} {ch} (pin {B} {cols} {ch})) {B} {rows} "
+                f"{P.cbmat(obs['colfp'])} && core_ok {cols} {ch} {ch} (p_excel_core {h} {ch} {cols}) {core} "
+                f"&& excel_conv_rejections_ok {cols} {h} {ch} {rej})")
     if k == "ft_convs":
-        return (f"ft_layer_fp_ok {cols} {B} (p_ft_convs {B} {cols} 2) {rows} {P.cbmat(obs['colfp'])} "
-                f"{P.cbvec(obs['cls_reach'])}")
+        return (f"ft_layer_fp_ok {cols} {B} (p_ft_convs {B} {cols} {ch}) {rows} {P.cbmat(obs['colfp'])} "
+                f"{P.cbvec(obs['cls_reach'] or [])}")
     if k == "trompt_conv":
-        return (f"trompt_layer_fp_ok {cols} {Pn} {B} (p_trompt_conv_run {B} {cols} 2 {Pn}) {rows} "
-                f"{P.cbmat(obs['colfp'])} {P.cbmat(obs['pfp'])}")
+        rej = "[" + "; ".join(f"({_shp(sa)}, {_shp(sb)}, {C.cbool(raised)})" for _, sa, sb, raised, _ in rej3) + "]"
+        return (f"(trompt_layer_fp_ok {cols} {Pn} {B} (p_trompt_conv_run {B} {cols} {ch} {Pn}) {rows} "
+                f"{P.cbmat(obs['colfp'])} {P.cbmat(obs['pfp'] or [])} && trompt_conv_rejections_ok {cols} {ch} {Pn} {rej})")
     flat = [row[0] for row in obs["colfp"]]
     if k == "trompt_decoder":
-        return f"decoder_fp_ok {Pn} {B} (p_trompt_decoder {Pn} 2 2 (pin {B} {Pn} 2)) {rows} {P.cbvec(flat)}"
+        rej = "[" + "; ".join(f"({_shp(sa)}, {C.cbool(raised)})" for _, sa, _, raised, _ in rej3) + "]"
+        return (f"(decoder_fp_ok {Pn} {B} (p_trompt_decoder {Pn} {ch} {out} (pin {B} {Pn} {ch})) {rows} {P.cbvec(flat)} "
+                f"&& trompt_decoder_rejections_ok {Pn} {ch} {out} {rej})")
     if k == "excel_decoder":
-        return f"decoder_fp_ok {cols} {B} (Some (p_excel_decoder 2 2 (pin {B} {cols} 2))) {rows} {P.cbvec(flat)}"
+        return f"decoder_fp_ok {cols} {B} (Some (p_excel_decoder {ch} {out} (pin {B} {cols} {ch}))) {rows} {P.cbvec(flat)}"
     raise ValueError(k)
